@@ -253,6 +253,11 @@ func cmdVC(args []string) int {
 			}
 		}
 	}
+	if pat == "" || strings.Contains("lemma", pat) {
+		if lt := e.VerifyLemmas(*prop); lt != nil {
+			trs = append(trs, lt)
+		}
+	}
 	results, problems := solveAll(trs, *prop, *timeout, false)
 	for _, p := range problems {
 		fmt.Println("PROBLEM:", p)
@@ -274,6 +279,9 @@ func cmdVC(args []string) int {
 		}
 	}
 	for _, tr := range trs {
+		if tr.top == nil {
+			continue
+		}
 		if st := coverStatus(tr, *timeout); st != "sat" {
 			fmt.Printf("VACUOUS? %s: no return shown reachable (%s)\n", tr.topShort, st)
 		}
@@ -316,6 +324,9 @@ func runCheck(prop, tier string) (*checkRun, error) {
 	for _, b := range e.checkImmutables() {
 		immProblems = append(immProblems, "immutable-field assumption violated: "+b)
 	}
+	if lt := e.VerifyLemmas(prop); lt != nil {
+		trs = append(trs, lt)
+	}
 	timeout := 10
 	if tier == "thorough" {
 		timeout = 60
@@ -324,6 +335,9 @@ func runCheck(prop, tier string) (*checkRun, error) {
 	problems = append(problems, immProblems...)
 	// vacuity covers
 	for _, tr := range trs {
+		if tr.top == nil {
+			continue
+		}
 		if st := coverStatus(tr, timeout); st == "unsat" {
 			problems = append(problems, fmt.Sprintf("vacuous contract: no return of %s is reachable under its preconditions", tr.topShort))
 		}
@@ -498,7 +512,11 @@ func report(cr *checkRun, seed int, start time.Time) int {
 	assume := map[string]bool{}
 	var fnames []string
 	for _, tr := range cr.trs {
-		fnames = append(fnames, tr.top.String())
+		if tr.top == nil {
+			fnames = append(fnames, "(lemmas over the contract vocabulary)")
+		} else {
+			fnames = append(fnames, tr.top.String())
+		}
 		for u := range tr.used {
 			assume[u] = true
 		}
@@ -565,7 +583,7 @@ func writeReplay(cr *checkRun, r *OblResult, sr *SiteResult) string {
 		"solver":        sr.Res.Solver,
 		"solver_status": sr.Status,
 		"solver_output": truncate(sr.Res.Output, 20000),
-		"function":      r.Obl.tr.top.String(),
+		"function":      topName(r.Obl.tr),
 	}
 	suffix := " no-failing-input-found"
 	if sr.Status == "sat" {
@@ -668,4 +686,11 @@ func cmdLoops(args []string) int {
 		}
 	}
 	return 0
+}
+
+func topName(tr *Tr) string {
+	if tr.top == nil {
+		return "lemma"
+	}
+	return tr.top.String()
 }
